@@ -593,7 +593,9 @@ class SequenceEncoder(AbstractItemEncoder):
                     else:
                         chunk = encodeFun(component, asn1Spec, **options)
 
-                        if wrapType.isSameTypeWith(component):
+                        if (component.typeId == univ.Any.typeId and
+                                wrapType.isSameTypeWith(component)):
+                            # serialized already
                             substrate += chunk
 
                         else:
@@ -698,7 +700,8 @@ class SequenceOfEncoder(AbstractItemEncoder):
             chunk = encodeFun(component, asn1Spec, **options)
 
             if (wrapType is not None and
-                    not wrapType.isSameTypeWith(component)):
+                    not (component.typeId == univ.Any.typeId and
+                         wrapType.isSameTypeWith(component))):
                 # wrap encoded value with wrapper container (e.g. ANY)
                 chunk = encodeFun(chunk, wrapType, **options)
 
